@@ -62,6 +62,38 @@ def inv_loop(st, delta, rules):
             + inv_delta(st, delta) + S.inv_sn(st, delta, rules, canonical=True))
 
 
+def observable_snapshot(st):
+    """what the public queries can see: every index table, union-find parents and lengths"""
+    snap = {}
+    for rel in st.s.rels.values():
+        for ix in rel.indices:
+            snap[ix.field] = dict(st.table(ix.field).cells)
+    for t in st.s.types:
+        pv = st.uf(t).f["parents"]
+        snap["uf." + t] = (list(pv.s), pv.n)
+    return snap
+
+
+def same_observable(st, snap):
+    c = V.CTX.c
+    out = T
+    for rel in st.s.rels.values():
+        for ix in rel.indices:
+            cur = st.table(ix.field).cells
+            old = snap[ix.field]
+            for t in set(cur) | set(old):
+                out = c.and2(out, c.iff(cur.get(t, F), old.get(t, F)))
+    for t in st.s.types:
+        pv = st.uf(t).f["parents"]
+        s0, n0 = snap["uf." + t]
+        out = c.and2(out, V.int_eq(pv.n, n0))
+        for a, b in zip(pv.s, s0):
+            if a is V.UNDEF or b is V.UNDEF:
+                continue
+            out = c.and2(out, V.int_eq(a, b))
+    return out
+
+
 def events_split(ctx, start=0):
     c = ctx.c
     ev = ctx.events[start:]
@@ -84,7 +116,7 @@ def lemma_step(su):
 
     def cond(I_, g, args):
         b = ctx.fresh_bool("cond")
-        conds.append(b)
+        conds.append((g, b, observable_snapshot(st)))
         # C04: the structural invariants hold whenever the condition is evaluated
         at_cond.append((g, M.inv_unionfind(st) + M.inv_struct(st, canon=True) + M.inv_no_uprooted(st)))
         return mkbool(b)
@@ -105,6 +137,12 @@ def lemma_step(su):
     goals += [("step.early: " + lab, c.implies(early, l)) for lab, l in inv_loop(st, None, su.rules)]
     for g, items in at_cond:
         goals += [("step.at-cond: " + lab, c.implies(g, l)) for lab, l in items]
+    # C07 contract: `true` is returned only in the state in which the condition just evaluated to true,
+    # `false` only in a state in which it just evaluated to false (and which is closed, above)
+    goals.append(("step.contract: return true only right after the condition held",
+                  c.implies(early, c.orl([c.and_(g, b, same_observable(st, snap)) for g, b, snap in conds]))))
+    goals.append(("step.contract: return false only right after the condition failed",
+                  c.implies(ex, c.orl([c.and_(g, -b, same_observable(st, snap)) for g, b, snap in conds]))))
     goals += [("step.no-panic: " + msg, -g) for msg, g in panic]
     goals += [("step.compaction-bound: " + msg, -g) for msg, g in compact]
     cover = [("continue", cont), ("exit", ex), ("early", early)]
